@@ -133,29 +133,44 @@ def _distinct_children(node):
 
 
 def probe_nodes(with_loopy: bool = True) -> dict[str, Any]:
-    """kind name -> probe node (the *class* name is `type(node).__name__`; several
-    probes may share a class, e.g. `BasicIndex` and `BasicIndex_symbolic`)"""
+    """probe name -> probe node, all built through the public API (the class name is
+    `type(node).__name__`; several probes may share a class, e.g. `BasicIndex` and
+    `BasicIndex_symbolic`).  `_symbolic` variants have array-valued (derived) shapes."""
     import pytato as pt
-    from pytato.array import NormalizedSlice
+    from pytato.function import trace_call
     s = kinds.specs(with_loopy=with_loopy)
     out: dict[str, Any] = {}
-    f64 = np.dtype("float64")
-    n, m, q = (pt.make_size_param(nm) for nm in ("pn_a", "pn_b", "pn_c"))
+    f64, i64 = np.dtype("float64"), np.dtype("int64")
     for name, spec in s.items():
         out[name] = spec.base
+    sp = pt.make_size_param
+    n = sp("pn")
+    xs = pt.make_placeholder("pxs", (n, 3), f64)
+    ys = pt.make_placeholder("pys", (n, 3), f64)
+    idx3 = pt.make_placeholder("pidx3", (2,), i64)
     # stored array-valued shape components (each a distinct SizeParam)
-    out["Placeholder"] = pt.make_placeholder("pp", (n, m), f64)
-    out["DataWrapper"] = dataclasses.replace(s["DataWrapper"].base, shape=(q, 3))
-    il = s["IndexLambda"].base
-    out["IndexLambda"] = dataclasses.replace(il, shape=(pt.make_size_param("pn_d"), 3))
-    out["DistributedRecv"] = dataclasses.replace(
-        s["DistributedRecv"].base, shape=(pt.make_size_param("pn_e"), 3))
-    rs = s["Reshape"].base
-    out["Reshape"] = dataclasses.replace(rs, newshape=(pt.make_size_param("pn_f"), 6))
-    # array-valued slice bound reachable through nothing else
-    bi = s["BasicIndex"].base
-    out["BasicIndex_slicebound"] = dataclasses.replace(
-        bi, indices=(NormalizedSlice(0, pt.make_size_param("pn_g"), 1), 0))
+    out["Placeholder"] = pt.make_placeholder("pp", (sp("pn_a"), sp("pn_b")), f64)
+    out["DataWrapper"] = pt.make_data_wrapper(
+        np.arange(12, dtype=np.float64).reshape(4, 3), shape=(sp("pn_c"), 3))
+    out["IndexLambda"] = xs + ys
+    from pytato.distributed.nodes import make_distributed_recv
+    out["DistributedRecv"] = make_distributed_recv(
+        src_rank=1, comm_tag=42, shape=(sp("pn_e"), 3), dtype=f64)
+    # derived array-valued shapes
+    out["Roll_symbolic"] = pt.roll(xs, 1, 1)
+    out["AxisPermutation_symbolic"] = pt.transpose(xs, (1, 0))
+    out["BasicIndex_symbolic"] = xs[:, 0]
+    out["AdvancedIndexInContiguousAxes_symbolic"] = xs[:, idx3]
+    out["Stack_symbolic"] = pt.stack([xs, ys], axis=0)
+    out["Concatenate_symbolic"] = pt.concatenate([xs, ys], axis=1)
+    out["Einsum_symbolic"] = pt.einsum("ij,ij->i", xs, ys)
+    d = pt.make_dict_of_named_arrays({"a": xs + ys, "b": ys})
+    out["NamedArray_symbolic"] = d["a"]
+
+    def f(a, b):
+        return {"o1": a + b, "o2": a * 2}
+    res = trace_call(f, xs, ys)
+    out["NamedCallResult_symbolic"] = res["o1"]
     for k in list(out):
         out[k] = _distinct_children(out[k])
     return out
